@@ -672,21 +672,22 @@ H("C04", "air::verif_h::c01_control_wrong_oracle_offs6", AIR, tier="thorough", m
   functions=["AsmLine::emit"], what="negative control: unmasked-offset oracle must be refuted", bounds="complete")
 
 PRE_STUBS = [FMT, "Cursor::advance_real -> next token of the harness's queue (lexing is decided by the lexer harnesses)",
+             "core::slice::memchr::memchr (behind str::find) -> plain byte loop with the same contract",
              "error::preproc_bad_lit / preproc_no_str -> contract (span inside the source)"]
 for nm, what, props, q in [
     ("c01_pre_fill", ".fill <literal> (every 16-bit value, Dec/Hex): one data word with that value, span = directive + literal", ["C01"], True),
     ("c01_pre_blkw_hex0", ".blkw x0: no word", ["C01"], False),
     ("c01_pre_blkw_hex2", ".blkw x2: two zero words", ["C01"], True),
     ("c01_pre_blkw_dec3", ".blkw #3: three zero words", ["C01"], False),
-    ("c01_pre_stringz", ".stringz \"a\\n\": unescaped code points + terminating zero, text sliced from the real source", ["C01", "C05"], True),
-    ("c01_pre_stringz_backslash_n", ".stringz with an escaped backslash followed by the letter n: backslash, n, 0", ["C01"], True),
-    ("c01_pre_stringz_nonascii", ".stringz with a 2-byte character: one word per character (U+00E9), then 0", ["C01"], True),
-    ("c01_pre_stringz_nonascii_escape", ".stringz with a 2-byte character before an escape: no slicing inside the character", ["C01", "C05"], True),
+    ("c01_pre_stringz", ".stringz \"a\\n\": unescaped code points + terminating zero, text sliced from the real source", ["C01", "C05"], False),
+    ("c01_pre_stringz_backslash_n", ".stringz with an escaped backslash followed by the letter n: backslash, n, 0", ["C01"], False),
+    ("c01_pre_stringz_nonascii", ".stringz with a 2-byte character: one word per character (U+00E9), then 0", ["C01"], False),
+    ("c01_pre_stringz_nonascii_escape", ".stringz with a 2-byte character before an escape: no slicing inside the character", ["C01", "C05"], False),
     ("c01_pre_break_end", ".break -> Breakpoint token, .end stops, comments vanish", ["C01", "C11"], False),
     ("c05_pre_directive_wrong_operand", ".fill/.blkw/.stringz followed by a token of any non-literal kind or by nothing: diagnostic, no panic", ["C05"], True),
 ]:
     for pp in props:
-        H(pp, f"parser::verif_h::{nm}", PAR, tier=("quick" if q else "thorough"), covers=1, stubs=PRE_STUBS, timeout=2400, mem_gb=24,
+        H(pp, f"parser::verif_h::{nm}", PAR, tier=("quick" if q else "thorough"), covers=1, stubs=PRE_STUBS, timeout=(5400 if "stringz" in nm else 2400), mem_gb=30,
           functions=["preprocess", "unescape", "Span::join", "Cursor::get_range"], what=what, bounds="one directive")
 for nm, what in [("c04_litrange_dec5", "#ddddd"), ("c04_litrange_dec_neg5", "#-ddddd"), ("c04_litrange_hex5", "xHHHHH"), ("c04_litrange_hex_neg4", "x-HHHH")]:
     H("C04", f"lexer::verif_h::{nm}", LEX, tier="thorough", covers=2, stubs=[FMT, KW], timeout=3000, mem_gb=24, functions=["Cursor::advance_token", "Cursor::hex", "Cursor::dec"],
